@@ -451,7 +451,10 @@ def inject(text, anchor, where, code, count=1):
         k = m.index("{")
         return text[:k + 1] + "\n" + code + "\n" + text[k + 1:], 1
     ms = list(re.finditer(anchor, m, re.S))
-    if len(ms) != count:
+    if count == "optional":
+        if len(ms) > 1:
+            raise Undecided("inject: optional anchor %r matched %d times" % (anchor, len(ms)))
+    elif len(ms) != count:
         raise Undecided("inject: anchor %r matched %d times, expected %d" % (anchor, len(ms), count))
     for mm in reversed(ms):
         if where == "after":
